@@ -1,4 +1,5 @@
 import PytezosModel.Proofs.C31
+import PytezosModel.Proofs.C31Text
 /-! C31 — operation list hash, operation list list hash and block payload hash are the Tezos Merkle root
 (perfect binary tree over the hashed items, padded to a power of two with copies of the last leaf;
 `H ""` for the empty list).  `H` (BLAKE2b-256 in the code) is an arbitrary function: the statements hold for
@@ -65,6 +66,108 @@ theorem block_payload_hash (H : Bytes → Bytes) (pred : Bytes) (round : Nat) (o
     Option.bind_some]
   cases merkle H ops <;> rfl
 
+/-! ### the public functions end to end: Base58Check strings in, `Lo…` / `LLo…` / `vh…` text out
+
+`Impl.MerkleText` composes the array algorithm with the C09 mirror of `base58_decode` / `base58_encode`.  First for every
+4-byte checksum function and every 32-byte hash function, then (`…_concrete`) for the executable double SHA-256 and
+BLAKE2b-256 the driver runs, so that the statements are about the very text pytezos returns. -/
+section Text
+open Impl.MerkleText Impl.Encoding HashText
+
+/-- closed facts (kernel evaluation over the regenerated C09 table) about the rows `Lo` / `LLo` / `vh` under which the
+results are written: each is in the table, is the row `base58_encode` selects for 32 bytes and its prefix, satisfies its
+numeral-range obligation and shares no (length, comparable prefix) with another row -/
+theorem result_rows_ok : (rowFacts loRow && rowFacts lloRow && rowFacts vhRow) = true := by decide +kernel
+
+/-- prefixes, digest size and round width as read from `hash.py` -/
+theorem prefixes_read :
+    (Generated.C31.opListPrefix, Generated.C31.opListListPrefix, Generated.C31.payloadPrefix, Generated.C31.digestSize,
+      Generated.C31.roundBytes) = (some "Lo", some "LLo", some "vh", some 32, some 4) := by decide
+
+theorem lo_facts : rowFacts loRow = true := by
+  have := result_rows_ok; simp only [Bool.and_eq_true] at this; exact this.1.1
+theorem llo_facts : rowFacts lloRow = true := by
+  have := result_rows_ok; simp only [Bool.and_eq_true] at this; exact this.1.2
+theorem vh_facts : rowFacts vhRow = true := by
+  have := result_rows_ok; simp only [Bool.and_eq_true] at this; exact this.2
+
+variable (cks : List Nat → List Nat) (hck : CksOk cks) (H : Bytes → Bytes) (hH : HashOk H)
+
+include hck hH in
+/-- `operation_list_hash`: when every item decodes, the call succeeds and returns the `Lo` text (52 characters) of the
+Merkle root of the decoded items — the text that `base58_decode` maps back to that root -/
+theorem operation_list_hash_text (ops : List (List Nat)) (raw : List Bytes) (hdec : decodeAll cks ops = .ok raw) :
+    ∃ root s, merkle H raw = some root ∧ operationListHash cks H ops = .ok s ∧
+      s.length = 52 ∧ [76, 111] <+: s ∧ base58Decode cks s = .ok root :=
+  opListHash_text cks hck H hH lo_facts ops raw hdec
+
+/-- … and when an item does not decode, the call raises that item's error -/
+theorem operation_list_hash_error (ops : List (List Nat)) (e : Impl.MerkleText.Err) (hdec : decodeAll cks ops = .error e) :
+    operationListHash cks H ops = .error e := by
+  simp [operationListHash, Generated.C31.opListPrefix, withPrefix, hdec]
+
+include hck hH in
+/-- `operation_list_list_hash`: when every item of every group decodes, the call returns the `LLo` text (53 characters)
+of the Merkle root over the Merkle roots of the groups (the inner `Lo` texts it builds and decodes again are transparent) -/
+theorem operation_list_list_hash_text (opss : List (List (List Nat))) (rawss : List (List Bytes))
+    (hdec : decodeGroups cks opss = some rawss) :
+    ∃ root s, (rawss.mapM (merkle H)).bind (merkle H) = some root ∧ operationListListHash cks H opss = .ok s ∧
+      s.length = 53 ∧ [76, 76, 111] <+: s ∧ base58Decode cks s = .ok root := by
+  obtain ⟨los, roots, h1, h2, h3⟩ := listHashes_spec cks hck H hH lo_facts opss rawss hdec
+  obtain ⟨root, s, hroot, hs, hl, hp, hd⟩ := root_text cks hck H hH lloRow llo_facts rfl roots
+  refine ⟨root, s, by simp [h3, hroot], ?_, hl, hp, hd⟩
+  have hs' : base58Encode cks root [76, 76, 111] = .ok s := hs
+  simp [operationListListHash, Generated.C31.opListListPrefix, withPrefix, chars_LLo, h1, h2, reduceE,
+    reduce_eq_merkle, hroot, liftB, hs']
+
+include hck hH in
+/-- `block_payload_hash`: predecessor and items decode, round below 2^32: the call returns the `vh` text (52 characters)
+of `H (predecessor ‖ round on 4 bytes, big endian ‖ Merkle root of the items)` -/
+theorem block_payload_hash_text (pred : List Nat) (p : Bytes) (round : Nat) (ops : List (List Nat)) (raw : List Bytes)
+    (hp : base58Decode cks pred = .ok p) (hr : round < 4294967296) (hdec : decodeAll cks ops = .ok raw) :
+    ∃ root s, merkle H raw = some root ∧ blockPayloadHash cks H pred round ops = .ok s ∧
+      s.length = 52 ∧ [118, 104] <+: s ∧ base58Decode cks s = .ok (H (p ++ be4 round ++ root)) := by
+  obtain ⟨root, hroot⟩ := merkle_defined H raw
+  obtain ⟨s, hs, hl, hpre, hd⟩ := text_of_payload cks hck vhRow vh_facts (H (p ++ be4 round ++ root)) (hH.len _) (hH.bytes _)
+  refine ⟨root, s, hroot, ?_, hl, hpre, hd⟩
+  have hs' : base58Encode cks (H (p ++ (be4 round ++ root))) [118, 104] = .ok s := by
+    rw [← List.append_assoc]; exact hs
+  simp [blockPayloadHash, Generated.C31.payloadPrefix, Generated.C31.roundBytes, withPrefix, chars_vh, hp, round_bytes, hr,
+    hdec, reduceE, reduce_eq_merkle, hroot, liftB, hs']
+
+/-- … and a round of 2^32 or more raises OverflowError once the predecessor has been decoded -/
+theorem block_payload_hash_overflow (pred : List Nat) (p : Bytes) (round : Nat) (ops : List (List Nat))
+    (hp : base58Decode cks pred = .ok p) (hr : 4294967296 ≤ round) :
+    blockPayloadHash cks H pred round ops = .error .overflow := by
+  have : ¬ round < 4294967296 := by omega
+  simp [blockPayloadHash, Generated.C31.payloadPrefix, Generated.C31.roundBytes, withPrefix, hp, round_bytes, this]
+
+/-! #### with the executable hashes (what the driver runs and pytezos computes) -/
+
+/-- `operation_list_hash` with double SHA-256 and BLAKE2b-256 -/
+theorem list_hash_concrete (ops : List (List Nat)) (raw : List Bytes) (hdec : decodeAll RealHash.cks ops = .ok raw) :
+    ∃ root s, merkle RealHash.blake raw = some root ∧ operationListHash RealHash.cks RealHash.blake ops = .ok s ∧
+      s.length = 52 ∧ [76, 111] <+: s ∧ base58Decode RealHash.cks s = .ok root :=
+  operation_list_hash_text RealHash.cks cks_ok RealHash.blake blake_ok ops raw hdec
+
+/-- `operation_list_list_hash` with double SHA-256 and BLAKE2b-256 -/
+theorem list_list_hash_concrete (opss : List (List (List Nat))) (rawss : List (List Bytes))
+    (hdec : decodeGroups RealHash.cks opss = some rawss) :
+    ∃ root s, (rawss.mapM (merkle RealHash.blake)).bind (merkle RealHash.blake) = some root ∧
+      operationListListHash RealHash.cks RealHash.blake opss = .ok s ∧
+      s.length = 53 ∧ [76, 76, 111] <+: s ∧ base58Decode RealHash.cks s = .ok root :=
+  operation_list_list_hash_text RealHash.cks cks_ok RealHash.blake blake_ok opss rawss hdec
+
+/-- `block_payload_hash` with double SHA-256 and BLAKE2b-256 -/
+theorem payload_hash_concrete (pred : List Nat) (p : Bytes) (round : Nat) (ops : List (List Nat)) (raw : List Bytes)
+    (hp : base58Decode RealHash.cks pred = .ok p) (hr : round < 4294967296) (hdec : decodeAll RealHash.cks ops = .ok raw) :
+    ∃ root s, merkle RealHash.blake raw = some root ∧ blockPayloadHash RealHash.cks RealHash.blake pred round ops = .ok s ∧
+      s.length = 52 ∧ [118, 104] <+: s ∧
+      base58Decode RealHash.cks s = .ok (RealHash.blake (p ++ be4 round ++ root)) :=
+  block_payload_hash_text RealHash.cks cks_ok RealHash.blake blake_ok pred p round ops raw hp hr hdec
+
+end Text
+
 -- non-vacuity: five items (padding to eight, the odd-count copy step is taken) with an injective toy "hash"
 example : reduce (fun b => 7 :: b) [[1], [2], [3], [4], [5]] =
     some [7, 7, 7, 7, 1, 7, 2, 7, 7, 3, 7, 4, 7, 7, 7, 5, 7, 5, 7, 7, 5, 7, 5] := by
@@ -74,5 +177,39 @@ example : reduce (fun b => 7 :: b) [[1], [2], [3]] = some [7, 7, 7, 1, 7, 2, 7, 
 example : padPow2 [[1], [2], [3], [4], [5]] = [[1], [2], [3], [4], [5], [5], [5], [5]] := by decide
 example : blockPayloadRaw (fun b => 7 :: b) [9] 258 [] = some [7, 9, 0, 0, 1, 2, 7] := by
   rw [block_payload_hash _ _ _ _ (by omega)]; decide
+
+/-! known answers, evaluated by the kernel with the Lean BLAKE2b and SHA-256: the published RFC 7693 vector (digest
+size 64), BLAKE2b-256 of the empty string, and recorded chain data of tests/unit_tests/test_crypto/test_hashes.py -/
+
+-- RFC 7693 appendix A: BLAKE2b-512("abc") = ba80a53f 981c4d0d 6a2797b6 9f12f6e9 … d4009923 (same compression function, digest size 64)
+set_option maxRecDepth 4000 in
+example : Core.Hash.blake2b 64 [97, 98, 99] =
+    [0xba, 0x80, 0xa5, 0x3f, 0x98, 0x1c, 0x4d, 0x0d, 0x6a, 0x27, 0x97, 0xb6, 0x9f, 0x12, 0xf6, 0xe9,
+    0x4c, 0x21, 0x2f, 0x14, 0x68, 0x5a, 0xc4, 0xb7, 0x4b, 0x12, 0xbb, 0x6f, 0xdb, 0xff, 0xa2, 0xd1,
+    0x7d, 0x87, 0xc5, 0x39, 0x2a, 0xab, 0x79, 0x2d, 0xc2, 0x52, 0xd5, 0xde, 0x45, 0x33, 0xcc, 0x95,
+    0x18, 0xd3, 0x8a, 0xa8, 0xdb, 0xf1, 0x92, 0x5a, 0xb9, 0x23, 0x86, 0xed, 0xd4, 0x00, 0x99, 0x23] := by decide +kernel
+-- BLAKE2b-256 of the empty string: 0e5751c026e543b2e8ab2eb06099daa1d1e5df47778f7787faab45cdf12fe3a8
+set_option maxRecDepth 4000 in
+example : RealHash.blake [] = [0x0e, 0x57, 0x51, 0xc0, 0x26, 0xe5, 0x43, 0xb2, 0xe8, 0xab, 0x2e, 0xb0, 0x60, 0x99, 0xda, 0xa1,
+    0xd1, 0xe5, 0xdf, 0x47, 0x77, 0x8f, 0x77, 0x87, 0xfa, 0xab, 0x45, 0xcd, 0xf1, 0x2f, 0xe3, 0xa8] := by decide +kernel
+-- ithacanet block 288671 (`test_payload_hash_tx`): predecessor `BL1whyhJA8fUF2ziNZj1MnHFQNLD6QTZTTHiG1oL8LSFwdJQ43z`,
+-- round 0, one operation `ooa2pnEHguRveoV8WMYswpuSkyvxKTA9hyHDAsVgc9qnXtcDxd7`:
+-- payload hash `vh29w4KZGVb3A9QyjzDetftoWiCfvRugwAiaQ5Z3FFScy7QzjmH9`
+set_option maxRecDepth 4000 in
+example : (Impl.MerkleText.blockPayloadHash RealHash.cks RealHash.blake
+    [66, 76, 49, 119, 104, 121, 104, 74, 65, 56, 102, 85, 70, 50, 122, 105, 78, 90, 106, 49, 77, 110, 72, 70, 81,
+    78, 76, 68, 54, 81, 84, 90, 84, 84, 72, 105, 71, 49, 111, 76, 56, 76, 83, 70, 119, 100, 74, 81, 52, 51, 122] 0
+    [[111, 111, 97, 50, 112, 110, 69, 72, 103, 117, 82, 118, 101, 111, 86, 56, 87, 77, 89, 115, 119, 112, 117, 83,
+    107, 121, 118, 120, 75, 84, 65, 57, 104, 121, 72, 68, 65, 115, 86, 103, 99, 57, 113, 110, 88, 116, 99, 68, 120,
+    100, 55]]).toOption =
+    some [118, 104, 50, 57, 119, 52, 75, 90, 71, 86, 98, 51, 65, 57, 81, 121, 106, 122, 68, 101, 116, 102, 116, 111, 87,
+    105, 67, 102, 118, 82, 117, 103, 119, 65, 105, 97, 81, 53, 90, 51, 70, 70, 83, 99, 121, 55, 81, 122, 106, 109,
+    72, 57] := by decide +kernel
+-- a corrupted item makes the call fail with base58's checksum error (last character of the operation hash changed)
+example : (match Impl.MerkleText.operationListHash RealHash.cks RealHash.blake
+    [[111, 111, 97, 50, 112, 110, 69, 72, 103, 117, 82, 118, 101, 111, 86, 56, 87, 77, 89, 115, 119, 112, 117, 83,
+    107, 121, 118, 120, 75, 84, 65, 57, 104, 121, 72, 68, 65, 115, 86, 103, 99, 57, 113, 110, 88, 116, 99, 68, 120,
+    100, 56]] with
+    | .error e => some e | .ok _ => none) = some (.b58 .invalidChecksum) := by decide +kernel
 
 end C31
